@@ -597,6 +597,42 @@ def c17_9(ctx, ss):
         got = gf.keywords(t)
         (ctx.holds if got == want else ctx.violation)("C17.9", f"{G}:{t} :: keywords", loc, f"`{t}` is written with {sorted(want)}" if got == want
                                                       else f"`{t}` is recognised by {sorted(got)}, option files write {sorted(want)}", len(want))
+    # lexer order: Lark tries terminals by descending priority, then by width.  A terminal that is given a higher priority
+    # than another one, and whose words are proper prefixes of that other terminal's words, wins against the longer match:
+    # `[SBW]` would be read as spin `S` followed by `BW`.  (Equal priorities leave the decision to the longest match.)
+    import re as _re2
+    terms = {n_: t_ for n_, t_ in gf.terminals.items() if not n_.startswith("__")}
+    clash = None
+    n_pairs = 0
+    for an, a_ in terms.items():
+        for bn, b_ in terms.items():
+            if an == bn or (a_.priority or 0) <= (b_.priority or 0):
+                continue
+            n_pairs += 1
+            try:
+                ra = Rx(a_.pattern.to_regexp())
+                words_a = ra.finite_words(cap=32)
+                rb = _re2.compile(b_.pattern.to_regexp())
+            except Exception:
+                continue
+            if not words_a:
+                continue
+            for w_ in words_a:
+                # is there a longer word of B that starts with this word of A?  (probe a few continuations from B's alphabet)
+                for tail in ("BW", "a", "0", "_x", ".a", "x1"):
+                    if rb.fullmatch(w_ + tail) and not _re2.fullmatch(a_.pattern.to_regexp(), w_ + tail):
+                        clash = (an, bn, w_, w_ + tail)
+                        break
+                if clash:
+                    break
+            if clash:
+                break
+        if clash:
+            break
+    (ctx.holds if not clash else ctx.violation)("C17.9", f"{G}:terminals :: priority-vs-longest-match", loc,
+                                                f"no terminal with a raised priority shadows the beginning of a longer token ({n_pairs} ordered pairs)" if not clash else
+                                                f"terminal {clash[0]} has a higher priority than {clash[1]} and matches the beginning `{clash[2]}` of its word `{clash[3]}`: "
+                                                f"`{clash[3]}` is tokenised as {clash[0]} + rest and legal option texts are rejected", max(1, n_pairs))
     alts = gf.line_alternatives()
     miss = sorted(AMP_LINES - alts)
     (ctx.holds if not miss else ctx.violation)("C17.9", f"{G}:line :: statement-kinds", loc, f"a line can be each of {sorted(AMP_LINES)}" if not miss
